@@ -321,8 +321,8 @@ def gen_id_block(lo: int, hi: int, noise: bool, rng: random.Random) -> dict:
 class C12(CheckBase):
     pid = "C12"
     level = "exploration"
-    quick_cases = 2400
-    thorough_cases = 24000
+    quick_cases = 9600
+    thorough_cases = 96000
 
     def cases(self, rng: random.Random, tier: str, idx: int) -> Iterable[dict]:
         if tier == "thorough" and idx < 256:
